@@ -304,6 +304,32 @@ theorem evalStep_noref_vd {env : Env} {base : List (Str × Json)} {impl : FmtImp
       rw [hp.top]
       exact hu
 
+/-! ### the domain, side conditions read locally
+
+`Spec.RefDomain.side` asks `numSafe`/`typesKnown` of every member, and these look at EVERY key
+spelled `multipleOf`/`divisibleBy`/`type`/`disallow` at any depth — also where the spelling is that
+of a property NAME (`"properties": {"multipleOf": {…}}`, as in every bundled metaschema, for which
+`numSafe` therefore answers `false`). The evaluator reads, of one schema object, only that object's
+OWN members; the subschemas are members of the domain themselves. `RefDomainL` asks just that. -/
+
+theorem Spec.RefDomainL.of {env : Env} {d : Draft} {base : List (Str × Json)} {D : Str → Json → Bool}
+    (h : RefDomain env d base D) : RefDomainL env d base D where
+  kind := h.kind
+  wf := fun top s hs => (h.side top s hs).1
+  nsl := fun top _ hs _ _ hx =>
+    (Rest.local ⟨(h.side top _ hs).1, (h.side top _ hs).2.1, (h.side top _ hs).2.2⟩).ns_member hx
+  tkl := fun top _ hs _ _ hx =>
+    (Rest.local ⟨(h.side top _ hs).1, (h.side top _ hs).2.1, (h.side top _ hs).2.2⟩).tk_member hx
+  ident := h.ident
+  shape := h.shape
+  ref := h.ref
+  req3 := h.req3
+
+theorem Spec.RefDomainL.restL {env : Env} {d : Draft} {base : List (Str × Json)} {D : Str → Json → Bool}
+    (h : RefDomainL env d base D) {top : Str} {kvs : List (Str × Json)} (hs : D top (.obj kvs) = true) :
+    RestL d kvs :=
+  ⟨h.wf top _ hs, fun hx => h.nsl top kvs hs _ _ hx, fun hx => h.tkl top kvs hs _ _ hx⟩
+
 /-! ### the induction -/
 
 /-- what the induction on the fuel provides: the evaluator with fuel `n` is right on every member
@@ -334,10 +360,10 @@ theorem bool_vd (n m : Nat) (hm : n ≤ m) (top : Str) (b : Bool) (i : Json) (sc
 
 /-- the context of one schema object of the domain, the schemas draft 3 `disallow` synthesises
     being provided separately -/
-theorem ctxR_core (hD : RefDomain env d base D) (n : Nat) (ih : RecOK env impl d base D n)
+theorem ctxR_core (hD : RefDomainL env d base D) (n : Nat) (ih : RecOK env impl d base D n)
     (top : Str) (sc : List Str) (hsc : sc.headD [] = top) (m : Nat) (hm : n ≤ m)
     (kvs : List (Str × Json)) (hshape : ∀ kv ∈ kvs, shapeClause d (D top) kv = true)
-    (hrest : Rest d (.obj kvs)) (hnr : lookupJ "$ref" kvs = none)
+    (hrest : RestL d kvs) (hnr : lookupJ "$ref" kvs = none)
     (hsyn : d = .d3 → ∀ dv, (k!"disallow", dv) ∈ kvs → ∀ ts, ensureList dv = some ts → ∀ t ∈ ts,
       ∀ i', WF i' = true →
         Vd False (PK env base sc) (eval env impl (d.cfg none) n i' (.obj [(skey "type", .arr [t])]))
@@ -364,7 +390,7 @@ def Entry3 (d : Draft) (D : Str → Json → Bool) (top : Str) (t : Json) : Prop
 
 /-- the schema `{"type": [t]}` that draft 3 `disallow` synthesises costs the evaluator one more
     level; the specification (`tyval`) looks at `t` directly, with its own, larger, number of steps -/
-theorem synth_vd (hre : RegexTotal env) (hset : SetOrderOk env) (hD : RefDomain env d base D)
+theorem synth_vd (hre : RegexTotal env) (hset : SetOrderOk env) (hD : RefDomainL env d base D)
     (hd : d = .d3) (n : Nat) (ih : ∀ k, k < n → RecOK env impl d base D k)
     (top : Str) (sc : List Str) (hsc : sc.headD [] = top) (m : Nat) (hm : n ≤ m) (t : Json)
     (ht : Entry3 d D top t) (i' : Json) (hi' : WF i' = true) :
@@ -389,11 +415,10 @@ theorem synth_vd (hre : RegexTotal env) (hset : SetOrderOk env) (hD : RefDomain 
       rw [List.mem_singleton] at h
       cases h
       exact ⟨ks_type, rfl⟩
-    have hrt : Rest .d3 t := by
+    have hwt : WF t = true := by
       rcases ht with ⟨nm, rfl, _⟩ | ⟨_, h2⟩
-      · exact Rest.leaf _ _ rfl rfl
-      · obtain ⟨h1, h2, h3⟩ := hD.side top t h2
-        exact ⟨h1, h2, h3⟩
+      · rfl
+      · exact hD.wf top t h2
     refine schemaBody_vd hre hset
       (ctxR_core hD n2 (ih n2 (Nat.lt_succ_self _)) top sc hsc m (by omega) _ (fun kv hkv => ?_) ?_ rfl
         (fun _ dv hm' => ?_)) i' hi'
@@ -405,26 +430,27 @@ theorem synth_vd (hre : RegexTotal env) (hset : SetOrderOk env) (hD : RefDomain 
       rcases ht with ⟨nm, rfl, _⟩ | ⟨h0, h1⟩
       · rfl
       · cases t <;> first | exact h1 | cases h0
-    · refine ⟨?_, ?_, ?_⟩
-      · simp [WF, keysDistinct, WFKvs, WFList, hrt.wf]
-      · simp [numSafe, numSafe.numSafeKvs, numSafe.numSafeList, hrt.ns]
-        rw [show skey "type" = k!"type" from ks_type, ks_multipleOf, ks_divisibleBy]
-        decide
-      · simp only [typesKnown, typesKnown.typesKnownKvs, typesKnown.typesKnownList, hrt.tk,
-          Bool.and_true]
-        rw [if_pos (show skey "type" = ks "type" ∨ skey "type" = ks "disallow" from Or.inl rfl)]
+    · refine ⟨?_, fun hx => ?_, fun hx => ?_⟩
+      · simp [WF, keysDistinct, WFKvs, WFList, hwt]
+      · obtain ⟨rfl, rfl⟩ := hmem1 hx
+        unfold nsMember
+        rw [ks_multipleOf, ks_divisibleBy, if_neg (by decide)]
+      · obtain ⟨rfl, rfl⟩ := hmem1 hx
+        rw [tkMember_type]
+        show ([t].all fun t => match t with | .str t => (typeNames Draft.d3).contains t | _ => true) = true
+        rw [List.all_cons, List.all_nil, Bool.and_true]
         rcases ht with ⟨nm, rfl, h⟩ | ⟨h0, _⟩
-        · simpa using h
+        · exact h
         · cases t <;> first | rfl | cases h0
     · obtain ⟨h1, _⟩ := hmem1 hm'
       exact absurd h1 (by decide)
 
 /-- the context of one schema object of the domain without `$ref` -/
-theorem ctxR (hre : RegexTotal env) (hset : SetOrderOk env) (hD : RefDomain env d base D)
+theorem ctxR (hre : RegexTotal env) (hset : SetOrderOk env) (hD : RefDomainL env d base D)
     (n : Nat) (ih : ∀ k, k ≤ n → RecOK env impl d base D k)
     (top : Str) (sc : List Str) (hsc : sc.headD [] = top) (m : Nat) (hm : n ≤ m)
     (kvs : List (Str × Json)) (hshape : ∀ kv ∈ kvs, shapeClause d (D top) kv = true)
-    (hrest : Rest d (.obj kvs)) (hnr : lookupJ "$ref" kvs = none) :
+    (hrest : RestL d kvs) (hnr : lookupJ "$ref" kvs = none) :
     Ctx False (PK env base sc) d (eval env impl (d.cfg none) n) (validRN env d base m top) (D top) kvs := by
   refine ctxR_core hD n (ih n (Nat.le_refl _)) top sc hsc m hm kvs hshape hrest hnr ?_
   intro hd dv hmem ts hts t ht i' hi'
@@ -444,7 +470,7 @@ theorem ctxR (hre : RegexTotal env) (hset : SetOrderOk env) (hD : RefDomain env 
 
 /-- **the step of the induction** -/
 theorem recOK_succ (hre : RegexTotal env) (hset : SetOrderOk env) (hf : StableFetchS env)
-    (hD : RefDomain env d base D) (n : Nat) (ih : ∀ k, k ≤ n → RecOK env impl d base D k) :
+    (hD : RefDomainL env d base D) (n : Nat) (ih : ∀ k, k ≤ n → RecOK env impl d base D k) :
     RecOK env impl d base D (n + 1) := by
   intro top s hs m hm i hi sc hsc
   obtain ⟨m', rfl⟩ := Nat.exists_eq_succ_of_ne_zero (by omega : m ≠ 0)
@@ -471,22 +497,26 @@ theorem recOK_succ (hre : RegexTotal env) (hset : SetOrderOk env) (hf : StableFe
       subst hsc
       obtain ⟨hid, hjoin⟩ := hD.ident _ kvs hs
       refine evalStep_noref_vd hid hjoin hr ?_
-      obtain ⟨h1, h2, h3⟩ := hD.side _ _ hs
       exact schemaBody_vd hre hset
         (ctxR hre hset hD n ih _ (scInside env d sc kvs) (scInside_head env d sc kvs) m' hm' kvs
-          (List.all_eq_true.mp (hD.shape _ kvs hs hr)) ⟨h1, h2, h3⟩ hr) i hi
+          (List.all_eq_true.mp (hD.shape _ kvs hs hr)) (hD.restL hs) hr) i hi
   · exact bool_vd (n + 1) (m' + 1) hm top b i sc
 
 /-- **the evaluator agrees with the specification with references** on every member of a
     reference domain, from every faithful state, for every budget -/
-theorem evalR_vd (hre : RegexTotal env) (hset : SetOrderOk env) (hf : StableFetchS env)
-    (hD : RefDomain env d base D) : ∀ n, RecOK env impl d base D n := by
+theorem evalRL_vd (hre : RegexTotal env) (hset : SetOrderOk env) (hf : StableFetchS env)
+    (hD : RefDomainL env d base D) : ∀ n, RecOK env impl d base D n := by
   intro n
   induction n using Nat.strong_induction_on with
   | _ n ih =>
     cases n with
     | zero => exact recOK_zero
     | succ n => exact recOK_succ hre hset hf hD n (fun k hk => ih k (Nat.lt_succ_of_le hk))
+
+/-- … in particular on every `Spec.RefDomain` -/
+theorem evalR_vd (hre : RegexTotal env) (hset : SetOrderOk env) (hf : StableFetchS env)
+    (hD : RefDomain env d base D) : ∀ n, RecOK env impl d base D n :=
+  evalRL_vd hre hset hf (RefDomainL.of hD)
 
 end
 
